@@ -120,6 +120,8 @@ type BeaconNode struct {
 	AttestationRoot *phase0.Root
 	// FailDomain > 0: the next DomainData call fails and the counter is decremented.
 	FailDomain int
+	forks      []uint64
+	blinded    bool
 	op         *int
 }
 
@@ -128,7 +130,13 @@ func (b *BeaconNode) DomainData(epoch phase0.Epoch, domain phase0.DomainType) (p
 		b.FailDomain--
 		return phase0.Domain{}, ErrInjected
 	}
-	return b.TestingBeaconNode.DomainData(epoch, domain)
+	// computed like a real node: compute_domain(type, fork_version(epoch), genesis_validators_root)
+	return DomainAt(b.forks, epoch, domain), nil
+}
+
+// GetSyncMessageBlockRoot serves a head root that depends on the slot (the fixture's is constant).
+func (b *BeaconNode) GetSyncMessageBlockRoot(slot phase0.Slot) (phase0.Root, spec.DataVersion, error) {
+	return SyncRootFor(slot), spec.DataVersionPhase0, nil
 }
 
 func (b *BeaconNode) add(r *SubmitRec) { r.Op = *b.op; b.Submits = append(b.Submits, r) }
@@ -208,17 +216,17 @@ func (b *BeaconNode) SubmitValidatorRegistration(pubkey []byte, feeRecipient bel
 
 func (b *BeaconNode) GetBeaconBlock(slot phase0.Slot, graffiti, randao []byte) (ssz.Marshaler, spec.DataVersion, error) {
 	b.Fetches = append(b.Fetches, &FetchRec{Op: *b.op, Kind: "block", Slot: slot, Sigs: [][]byte{append([]byte(nil), randao...)}})
-	return b.TestingBeaconNode.GetBeaconBlock(slot, graffiti, randao)
+	return BlockFor(slot, false), spec.DataVersionCapella, nil
 }
 
 func (b *BeaconNode) GetBlindedBeaconBlock(slot phase0.Slot, graffiti, randao []byte) (ssz.Marshaler, spec.DataVersion, error) {
 	b.Fetches = append(b.Fetches, &FetchRec{Op: *b.op, Kind: "blinded-block", Slot: slot, Sigs: [][]byte{append([]byte(nil), randao...)}})
-	return b.TestingBeaconNode.GetBlindedBeaconBlock(slot, graffiti, randao)
+	return BlockFor(slot, true), spec.DataVersionCapella, nil
 }
 
 func (b *BeaconNode) SubmitAggregateSelectionProof(slot phase0.Slot, committeeIndex phase0.CommitteeIndex, committeeLength uint64, index phase0.ValidatorIndex, slotSig []byte) (ssz.Marshaler, spec.DataVersion, error) {
 	b.Fetches = append(b.Fetches, &FetchRec{Op: *b.op, Kind: "aggregate-selection", Slot: slot, Sigs: [][]byte{append([]byte(nil), slotSig...)}})
-	return b.TestingBeaconNode.SubmitAggregateSelectionProof(slot, committeeIndex, committeeLength, index, slotSig)
+	return AggregateFor(slot), spec.DataVersionPhase0, nil
 }
 
 func (b *BeaconNode) GetSyncCommitteeContribution(slot phase0.Slot, selectionProofs []phase0.BLSSignature, subnetIDs []uint64) (ssz.Marshaler, spec.DataVersion, error) {
@@ -227,5 +235,6 @@ func (b *BeaconNode) GetSyncCommitteeContribution(slot phase0.Slot, selectionPro
 		f.Sigs = append(f.Sigs, append([]byte(nil), p[:]...))
 	}
 	b.Fetches = append(b.Fetches, f)
-	return b.TestingBeaconNode.GetSyncCommitteeContribution(slot, selectionProofs, subnetIDs)
+	c := ContributionsFor(slot)
+	return &c, spec.DataVersionBellatrix, nil
 }
